@@ -101,6 +101,7 @@ func checkC11Pay(r *run, c *VP8PayCase) (CaseInfo, error) {
 			return ci, failf("frame %d (%d bytes, mtu %d, id %d): no packets", fi, f.Len, c.MTU, id)
 		}
 		var cat []byte
+		var parts [][]byte // the payload slices as returned, read again once the whole frame is decoded
 		for pi, pk := range pkts {
 			what := fmt.Sprintf("frame %d (%d bytes, mtu %d, id %d) packet %d/%d %s", fi, f.Len, c.MTU, id, pi, len(pkts), hx(pk))
 			if len(pk) > int(c.MTU) {
@@ -126,6 +127,7 @@ func checkC11Pay(r *run, c *VP8PayCase) (CaseInfo, error) {
 				return ci, failf("%s: empty payload", what)
 			}
 			cat = append(cat, payload...)
+			parts = append(parts, payload)
 			first := pi == 0
 			if ref.S != first || (vp.S == 1) != first || vp.IsPartitionHead(pk) != first || (&codecs.VP8PartitionHeadChecker{}).IsPartitionHead(pk) != first {
 				return ci, failf("%s: S=%v IsPartitionHead=%v, want %v", what, ref.S, vp.IsPartitionHead(pk), first)
@@ -155,6 +157,9 @@ func checkC11Pay(r *run, c *VP8PayCase) (CaseInfo, error) {
 		}
 		if !bytes.Equal(cat, orig) {
 			return ci, failf("frame %d (%d bytes, mtu %d): payloads concatenate to %d bytes that differ from the frame", fi, f.Len, c.MTU, len(cat))
+		}
+		if joined := bytes.Join(parts, nil); !bytes.Equal(joined, orig) {
+			return ci, failf("frame %d (%d bytes, mtu %d): the payload slices returned for its %d packets, read again after the last packet was decoded, no longer concatenate to the frame (a receiver collecting them gets %d wrong bytes)", fi, f.Len, c.MTU, len(parts), len(joined))
 		}
 		if len(pkts) >= 2 && enabled {
 			ci.Nontrivial = true
